@@ -7,6 +7,8 @@ nullable elements in between skipped; repetition bodies paired with themselves a
 trivia element between them, or A must always end with trivia, or B must always start with it.
 Pairs inside rules that spell ONE lexical token of §2.1.4 are exempt (frozen table below, one reason each)."""
 
+import re
+
 PARSER_FILE = "parser/src/parser.rs"
 TRIVIA = {"_", "whitespace", "comment"}
 
@@ -402,3 +404,56 @@ def run_glue(ctx, rep, rid="R-C08-glue"):
     if not any(i["verdict"] == "finding" for i in r.instances):
         r.ok("grammar|no glued/spaced split", PARSER_FILE, "%d ordered choices" % n_choices)
     r.note("%d ordered choices examined; glued first tokens exist in: %s" % (n_choices, ", ".join(sorted(k for k, v in first_glued.items() if v and k in LEXICAL_RULES))[:200]))
+
+
+# ---------------------------------------------------------------------------------------------------------------------
+def comment_regexes(ctx):
+    a = ctx.facts.astattrs.get("ironplc_parser::token::TokenType")
+    out = []
+    if a:
+        for at in a["variants"].get("Comment", {}).get("attrs", []):
+            m = re.search(r'#\[regex\(r"(.*?)"(?:,|\))', at)
+            if m:
+                out.append(m.group(1))
+    return out
+
+
+def run_comment(ctx, rep, rid="R-C08-comment"):
+    """A comment is trivia only if it ends where the reader expects it to end.  The block-comment pattern of the lexer (a constant,
+    read from the token attributes) is compared, as a regular language, with the definition `(*` ... first `*)`: strings over
+    {(, *, ), other} that start with `(*`, end with `*)` and contain no earlier `*)` after the opener.  A pattern that accepts
+    more runs past the end of a comment (and swallows code up to the next `*)`); one that accepts less rejects valid comments."""
+    from vlib import rx
+    r = rep.rule(rid, "the block-comment token matches exactly `(*` .. first `*)` (regular-language equivalence of the lexer's pattern with the reference automaton)",
+                 floor=1, floor_what="block comment patterns")
+    pats = [p for p in comment_regexes(ctx) if p.startswith(r"\(\*")]
+    if not pats:
+        r.finding("TokenType::Comment|no-block-pattern", "parser/src/token.rs", "no `(* .. *)` pattern found on the Comment token")
+        return
+
+    def delta(q, ch):
+        if q == 0:
+            return 1 if ch == "(" else None
+        if q == 1:
+            return 2 if ch == "*" else None
+        if q == 2:
+            return 3 if ch == "*" else 2
+        if q == 3:
+            return 3 if ch == "*" else (4 if ch == ")" else 2)
+        return None
+    for ptn in pats:
+        try:
+            res, alphabet = rx.compare(ptn, delta, 0, {4}, extra_chars="(*)")
+        except ValueError as e:
+            r.finding("TokenType::Comment|pattern-not-analysable", "parser/src/token.rs", "cannot turn the pattern into an automaton: %s" % e)
+            continue
+        if res is None:
+            r.ok("TokenType::Comment|%s" % ptn, "parser/src/token.rs", "equal to the reference over %s" % "".join(a if a != "\n" else "\\n" for a in alphabet))
+        else:
+            w, side = res
+            shown = w.replace("\n", "\\n")
+            if side == "regex":
+                r.finding("TokenType::Comment|accepts-too-much", "parser/src/token.rs", "the pattern matches `%s`, which is not one comment (a `*)` occurs before its end): "
+                          "with longest match the comment runs on to a later `*)` and the text in between is silently dropped" % shown)
+            else:
+                r.finding("TokenType::Comment|rejects-comment", "parser/src/token.rs", "the pattern does not match the comment `%s`" % shown)
